@@ -801,7 +801,7 @@ def cross_module_family(d: dict, rng: random.Random, P, must_reject: bool = Fals
     transactions conflict."""
     g = _helper_gen(d, rng, P)
     x = _fresh_leaf(d, rng, "v", iw=rng.choice([0, 2]))
-    sub = rng.random() < 0.5
+    sub = rng.random() < 0.7
     names = []
     variant_def = rng.random() < 0.4  # same variant for both modules
     for k in range(2):
